@@ -184,7 +184,7 @@ def gen_case(seed, tier):
             s_to = rng.randrange(nstores)
             others = [(o, n) for o in range(nstores) if o != s_to and reg_of[o] == reg_of[s_to]
                       for n in known[o] if n not in BUILTINS and n not in known[s_to]]
-            if others:
+            if others and not any(n_.startswith('store') for n_ in known[s_to]):
                 o, n = rng.choice(others)
                 nm = rng.choice(['qa', 'qb'])
                 if nm not in known[s_to]:
